@@ -7,19 +7,18 @@ HERE="$(cd "$(dirname "$0")" && pwd)"; H="$HERE/harness"
 export CARGO_NET_OFFLINE=true CARGO_TERM_COLOR=never
 mkdir -p "$H/run" "$HERE/evidence"
 START=$(date +%s.%N)
-if [ "$REPO" = "/repo" ]; then TGT="$H/target"; SUF=""; else SUF="-$(printf '%s' "$REPO" | md5sum | cut -c1-8)"; TGT="$H/target$SUF"; fi
-# the corpus generator lives in vmon
-sed "s#@REPO@#$REPO#g" "$H/Cargo.toml.in" > "$H/run/Cargo.toml.c20" && { cmp -s "$H/run/Cargo.toml.c20" "$H/Cargo.toml" || cp "$H/run/Cargo.toml.c20" "$H/Cargo.toml"; }
-( cd "$H" && flock "$H/run/build.lock" cargo build --release --offline --target-dir "$TGT" ) > "$H/run/build-C20.log" 2>&1 || { echo "INCONCLUSIVE property=C20 harness does not build; see $H/run/build-C20.log"; tail -n 20 "$H/run/build-C20.log"; exit 2; }
+# the caller (/verif/check) exports VERIF_HW (harness workspace for this repository copy) and VERIF_TGT
+HW="${VERIF_HW:-$H}"; TGT="${VERIF_TGT:-$H/target}"; SUF="$(basename "$TGT" | sed 's/^target//')"
+( cd "$HW" && flock "$TGT.lock" cargo build --release --offline --target-dir "$TGT" ) > "$H/run/build-C20$SUF.log" 2>&1 || { echo "INCONCLUSIVE property=C20 harness does not build; see $H/run/build-C20$SUF.log"; tail -n 20 "$H/run/build-C20$SUF.log"; exit 2; }
 for v in std alloc serde; do
-  d="$H/vdump-$v"
-  sed "s#@REPO@#$REPO#g" "$d/Cargo.toml.in" > "$d/Cargo.toml.new"
+  d="$HW/vdump-$v"; mkdir -p "$d"
+  sed "s#@REPO@#$REPO#g" "$H/vdump-$v/Cargo.toml.in" > "$d/Cargo.toml.new"
   cmp -s "$d/Cargo.toml.new" "$d/Cargo.toml" 2>/dev/null && rm "$d/Cargo.toml.new" || mv "$d/Cargo.toml.new" "$d/Cargo.toml"
   [ -f "$d/Cargo.lock" ] || cp "$REPO/Cargo.lock" "$d/Cargo.lock"
-  ( cd "$d" && flock "$H/run/build-vdump-$v.lock" cargo build --release --offline --target-dir "$H/target-vdump-$v$SUF" ) > "$H/run/build-C20-$v.log" 2>&1
+  ( cd "$d" && flock "$H/target-vdump-$v$SUF.lock" cargo build --release --offline --target-dir "$H/target-vdump-$v$SUF" ) > "$H/run/build-C20-$v$SUF.log" 2>&1
   if [ $? -ne 0 ]; then
-    echo "INCONCLUSIVE property=C20 the $v feature-set build of the repository's crates (or the dumper) does not build; see $H/run/build-C20-$v.log"
-    tail -n 20 "$H/run/build-C20-$v.log"
+    echo "INCONCLUSIVE property=C20 the $v feature-set build of the repository's crates (or the dumper) does not build; see $H/run/build-C20-$v$SUF.log"
+    tail -n 20 "$H/run/build-C20-$v$SUF.log"
     exit 2
   fi
 done
@@ -29,7 +28,7 @@ for v in std alloc serde; do
   "$H/target-vdump-$v$SUF/release/vdump-$v" "$W/corpus.txt" > "$W/out-$v.txt" 2> "$W/err-$v.txt" &
 done
 wait
-python3 "$HERE/drivers/c20_compare.py" --work "$W" --tier "$TIER" --seed "$SEED" --verif "$HERE" --start "$START"
+python3 "$HERE/drivers/c20_compare.py" --work "$W" --tier "$TIER" --seed "$SEED" --verif "${VERIF_OUT:-$HERE}" --start "$START"
 rc=$?
 [ $rc -eq 0 ] && rm -rf "$W"
 exit $rc
